@@ -169,6 +169,10 @@ CORPUS_NASTY = [
     "for i in 0..=9223372036854775807:\n    x\n",
 ]
 
+# heavier boundary sources for the thorough tier (kept empty: the generated-lines limit is already exercised by the
+# third and fourth entries above, and a 100000-line expansion is too slow to evaluate inside Coq)
+CORPUS_NASTY_THOROUGH = []
+
 
 def parse_equal(a, b):
     """same program, or both rejected (messages and positions are not compared)"""
